@@ -105,13 +105,89 @@ Section Hooks.
   Lemma I_in_ct : forall p, I_in p -> ct_invalid p = false.
   Proof. intros p (_ & _ & _ & H & _). exact H. Qed.
 
+  (* ---- kube-ipvs: cali-set-endpoint-mark never stops a packet that is not from a workload interface *)
+  Lemma mark_only_ok : forall n body, mark_only body = true -> seg_ok cs e I_in n body.
+  Proof.
+    intros n body. induction body as [|r rest IH]; intro H; [apply seg_nil|].
+    cbn [mark_only forallb] in H. apply andb_true_iff in H. destruct H as [Hr Hrest].
+    apply seg_cons; [|apply IH, Hrest]. destruct r as [ms a]. cbn [ir_action] in Hr.
+    destruct a; try discriminate. apply (seg_rule_mark cs e I_in I_in_mark).
+  Qed.
+  Lemma sem_leaf_ok : forall n r, sem_leaf cs r = true -> seg_ok cs e I_in (S n) [r].
+  Proof.
+    intros n [ms a] H. unfold sem_leaf in H. cbn [ir_match ir_action] in H. apply andb_true_iff in H. destruct H as [_ H].
+    destruct a; try discriminate. destruct (lookup cs c0) as [b|] eqn:El; [|discriminate].
+    apply (seg_rule_goto cs e I_in n ms c0 b El). apply mark_only_ok, H.
+  Qed.
+  Lemma sem_leaves_ok : forall n body, forallb (sem_leaf cs) body = true -> seg_ok cs e I_in (S n) body.
+  Proof.
+    intros n body. induction body as [|r rest IH]; intro H; [apply seg_nil|].
+    cbn [forallb] in H. apply andb_true_iff in H. destruct H as [Hr Hrest].
+    apply seg_cons; [apply sem_leaf_ok, Hr|apply IH, Hrest].
+  Qed.
+  Lemma sem_rule_ok : forall n r, sem_rule cs (c_prefixes c) r = true -> seg_ok cs e I_in (S (S n)) [r].
+  Proof.
+    intros n r H. unfold sem_rule in H. rewrite !orb_true_iff in H. destruct H as [[[H|H]|H]|H].
+    - apply (seg_ok_mono cs e I_in (S n)); [lia|]. apply sem_leaf_ok, H.
+    - destruct r as [ms a]. cbn [ir_match ir_action] in H. apply andb_true_iff in H. destruct H as [_ H].
+      destruct a; try discriminate. destruct (lookup cs c0) as [b|] eqn:El; [|discriminate].
+      apply (seg_rule_goto cs e I_in (S n) ms c0 b El). apply sem_leaves_ok, H.
+    - destruct r as [ms a]. cbn [ir_match ir_action] in H.
+      destruct ms as [|m ms]; [discriminate|]. destruct m; try discriminate. destruct neg; [discriminate|].
+      destruct wild; [|discriminate]. destruct ms; [|discriminate].
+      assert (Hin : exists pfx, In pfx (c_prefixes c) /\ bytes_eqb name pfx = true).
+      { destruct a; try discriminate; apply existsb_exists in H; exact H. }
+      destruct Hin as [pfx [Hin Heq]].
+      apply (seg_rule_nomatch cs e I_in). intros p (_ & _ & H3 & _).
+      cbn [matches forallb match_one iface_ok]. rewrite xorb_false_l, andb_true_r.
+      assert (name = pfx).
+      { clear -Heq. revert pfx Heq. induction name as [|x l IH]; destruct pfx as [|y l']; cbn; try discriminate; auto.
+        intro H. apply andb_true_iff in H. destruct H as [H1 H2]. apply N.eqb_eq in H1. f_equal; auto. }
+      subst name. apply (wl_iface_false c _ pfx H3 Hin).
+    - destruct r as [ms a]. cbn [ir_action] in H. destruct a; try discriminate. apply (seg_rule_mark cs e I_in I_in_mark).
+  Qed.
+  Lemma setmark_seg_ok : forall n body, lookup cs CH_SET_EP_MARK = Some body -> setmark_ok cs (c_prefixes c) = true ->
+    seg_ok cs e I_in (S (S n)) body.
+  Proof.
+    intros n body Hl H. unfold setmark_ok in H. rewrite Hl in H. clear Hl.
+    induction body as [|r rest IH]; [apply seg_nil|].
+    cbn [forallb] in H. apply andb_true_iff in H. destruct H as [Hr Hrest].
+    apply seg_cons; [apply sem_rule_ok, Hr|apply IH, Hrest].
+  Qed.
+
+  Lemma seg_forward_check : forall n, setmark_ok cs (c_prefixes c) = true ->
+    seg_ok cs e I_in (S (S (S n))) (forward_check c).
+  Proof.
+    intros n Hs. assert (Hl : exists b, lookup cs CH_SET_EP_MARK = Some b).
+    { unfold setmark_ok in Hs. destruct (lookup cs CH_SET_EP_MARK) as [b|]; [exists b; reflexivity|discriminate]. }
+    destruct Hl as [b Hl]. pose proof (setmark_seg_ok n b Hl Hs) as Hb.
+    unfold forward_check. apply seg_app; [|apply seg_app].
+    - apply seg_cons; [apply seg_rule_allow; right; reflexivity|apply seg_nil].
+    - apply seg_flat_map. intros sp _.
+      apply seg_cons; [apply (seg_rule_goto cs e I_in _ _ CH_SET_EP_MARK b Hl Hb)|].
+      apply seg_cons; [apply (seg_rule_goto cs e I_in _ _ CH_SET_EP_MARK b Hl Hb)|apply seg_nil].
+    - apply seg_cons; [apply (seg_rule_jump cs e I_in _ _ CH_SET_EP_MARK b Hl Hb)|apply seg_nil].
+  Qed.
+
+  Lemma seg_input_ipvs : forall n,
+    (c_ipvs c = true -> lookup cs CH_FWD_CHECK = Some (forward_check c) /\ setmark_ok cs (c_prefixes c) = true) ->
+    seg_ok cs e I_in (S (S (S (S n)))) (input_ipvs_rules c).
+  Proof.
+    intros n H. unfold input_ipvs_rules. destruct (c_ipvs c); [|apply seg_nil]. destruct (H eq_refl) as [Hl Hs]. cbn [opt_rules].
+    apply seg_cons; [apply (seg_rule_mark cs e I_in I_in_mark)|].
+    apply seg_cons; [apply (seg_rule_jump cs e I_in _ _ CH_FWD_CHECK _ Hl), seg_forward_check, Hs|].
+    apply seg_cons; [apply seg_rule_allow; right; reflexivity|apply seg_nil].
+  Qed.
+
   Theorem fs_in_filter_input : forall n disp,
+    (c_ipvs c = true -> lookup cs CH_FWD_CHECK = Some (forward_check c) /\ setmark_ok cs (c_prefixes c) = true) ->
     lookup cs CH_FS_IN = Some (failsafe_in TFilter c) ->
     lookup cs CH_FROM_HEP = Some disp -> hep_disp_ok cs CH_FROM_HEP CH_FS_IN = true ->
     seg_ok cs e I_in (S (S (S (S n)))) (filter_input c).
   Proof.
-    intros n disp Hfs Hd Hshape. unfold filter_input.
+    intros n disp Hipvs Hfs Hd Hshape. unfold filter_input.
     apply seg_app; [apply seg_app; [apply seg_input_tunnel|apply seg_input_wg]|].
+    apply seg_app; [apply seg_input_ipvs, Hipvs|].
     apply seg_app; [apply seg_input_wl|]. unfold input_hep_rules.
     apply seg_cons; [apply seg_rule_allow, fallow|].
     apply seg_cons; [apply (seg_rule_mark cs e I_in I_in_mark)|].
@@ -151,23 +227,34 @@ Section Hooks.
     apply seg_rule_noop. right; right; right; reflexivity.
   Qed.
 
-  Theorem fs_out_filter_output : forall n disp,
+  (* filter OUTPUT.  In kube-ipvs mode its second rule diverts packets carrying an endpoint mark (IPVS-forwarded
+     traffic, marked on INPUT) to cali-forward-endpoint-mark; a host-originated packet carries none (no_ep_mark). *)
+  Theorem fs_out_filter_output : forall n disp p,
     lookup cs CH_FS_OUT = Some (failsafe_out TFilter c) ->
     lookup cs CH_TO_HEP = Some disp -> hep_disp_ok cs CH_TO_HEP CH_FS_OUT = true ->
-    seg_ok cs e I_out (S (S (S (S n)))) (filter_output c).
+    I_out p -> no_ep_mark c p = true ->
+    okres I_out (G cs e (S (S (S (S n)))) (filter_output c) p).
   Proof.
-    intros n disp Hfs Hd Hshape. unfold filter_output.
-    apply seg_app; [apply seg_cons; [apply seg_rule_allow, fallow|apply seg_nil]|].
-    apply seg_app; [apply seg_map; intros pfx _; apply seg_rule_allow; right; reflexivity|].
-    apply seg_app.
-    { unfold output_tunnel_rules. repeat apply seg_app; apply seg_opt;
-        (apply seg_cons; [apply seg_rule_allow, fallow|apply seg_nil]). }
-    apply seg_cons; [apply (seg_rule_mark cs e I_out I_out_mark)|].
-    apply seg_cons; [|apply seg_cons; [apply seg_rule_allow, fallow|apply seg_nil]].
-    apply (seg_rule_jump cs e I_out _ _ CH_TO_HEP disp Hd).
-    apply (hep_dispatch_ok cs e I_out I_out_mark CH_TO_HEP CH_FS_OUT _ n disp Hfs); try assumption.
-    - intros p (H1 & H2 & _). apply failsafe_out_accepts; assumption.
-    - exact I_out_ct.
+    intros n disp p Hfs Hd Hshape Hp Hnm.
+    assert (Hrest : seg_ok cs e I_out (S (S (S (S n))))
+              (map (fun pfx => R [MOutIface false pfx true] AReturn) (c_prefixes c) ++ output_tunnel_rules c ++
+               [R [] (AClearMark (all_bits c)); R [MOth true O_CT_DNAT] (AJump CH_TO_HEP); R [m_bit_set (c_accept c)] (c_filter_allow c)])).
+    { apply seg_app; [apply seg_map; intros pfx _; apply seg_rule_allow; right; reflexivity|].
+      apply seg_app.
+      { unfold output_tunnel_rules. repeat apply seg_app; apply seg_opt;
+          (apply seg_cons; [apply seg_rule_allow, fallow|apply seg_nil]). }
+      apply seg_cons; [apply (seg_rule_mark cs e I_out I_out_mark)|].
+      apply seg_cons; [|apply seg_cons; [apply seg_rule_allow, fallow|apply seg_nil]].
+      apply (seg_rule_jump cs e I_out _ _ CH_TO_HEP disp Hd).
+      apply (hep_dispatch_ok cs e I_out I_out_mark CH_TO_HEP CH_FS_OUT _ n disp Hfs); try assumption.
+      - intros q (H1 & H2 & _). apply failsafe_out_accepts; assumption.
+      - exact I_out_ct. }
+    unfold filter_output, G. cbn [app go R ir_match ir_action].
+    destruct (matches e p [m_bit_set (c_accept c)]).
+    { destruct fallow as [-> | ->]; simpl; auto. }
+    unfold no_ep_mark in Hnm. destruct (c_ipvs c); cbn [opt_rules app negb orb] in *.
+    - cbn [go R ir_match ir_action matches forallb match_one]. rewrite Hnm. cbn [xorb andb]. apply (Hrest p Hp).
+    - apply (Hrest p Hp).
   Qed.
 
   Theorem fs_out_raw_output : forall n disp,
@@ -205,6 +292,7 @@ Section Hooks.
     { apply seg_opt. apply seg_map. intros pfx _. apply seg_rule_noop. left. reflexivity. }
     apply seg_cons; [apply (seg_rule_jump cs e I_out _ _ CH_EGRESS_DSCP dscp Hdl), noop_chain_ok, Hdn|].
     apply seg_cons; [apply seg_rule_allow; right; reflexivity|].
+    apply seg_app; [apply seg_opt; apply seg_cons; [apply seg_rule_allow; right; reflexivity|apply seg_nil]|].
     apply seg_cons; [apply (seg_rule_mark cs e I_out I_out_mark)|].
     apply seg_cons; [|apply seg_cons; [apply seg_rule_allow; right; reflexivity|apply seg_nil]].
     apply (seg_rule_jump cs e I_out _ _ CH_TO_HEP disp Hd).
